@@ -101,7 +101,9 @@ def idCount (a : Agent) (len : Nat) : Agent :=
 
 theorem inboundData_eq (a : Agent) (now : Nat) (l : Cand) (src len : Nat) :
     a.inboundData now l src len =
-    if !(idFind a now l src).2 then ((idFind a now l src).1, []) else (idCount (idFind a now l src).1 len, []) := by
+    if !(idFind a now l src).2 then ((idFind a now l src).1, [])
+    else if !rxFits (idFind a now l src).1.rx len then ((idFind a now l src).1, [])
+    else (idCount (idFind a now l src).1 len, []) := by
   unfold Agent.inboundData idFind idCount
   rfl
 
@@ -129,6 +131,8 @@ theorem idCount_hok (a : Agent) (len : Nat) : HOK False True a (idCount a len, [
 theorem inboundData_hsel (a : Agent) (now : Nat) (l : Cand) (src len : Nat) :
     HSel False a (a.inboundData now l src len) ∧ NoReq (a.inboundData now l src len).2 := by
   rw [inboundData_eq]
+  split
+  · exact ⟨(idFind_hok a now l src).hsel, NoReq.nil⟩
   split
   · exact ⟨(idFind_hok a now l src).hsel, NoReq.nil⟩
   · exact ⟨((idFind_hok a now l src).chain (idCount_hok _ len)).hsel, NoReq.nil⟩
